@@ -93,6 +93,13 @@ SEEDS = {
  "C11e": dict(property="C11", needs="the same name counted under two resource types, or any leaked entry at end of life: dict.fromkeys gives the three per-type registries one shared dict"),
  "C17e": dict(property="C17", needs="an active cgroup quota AND an affinity mask strictly smaller than ceil(quota/period): the affinity is passed to the cgroup helper as its no-quota default and dropped from the final min"),
  "C19e": dict(property="C19", needs="two or more workers started in one _adjust_process_count call (first submit of a pool with max_workers >= 2, resize by more than one, several respawns): the depth increment stays inside the spawn loop, the k-th worker gets depth parent + k"),
+ "C01e": dict(property="C01", needs="the last worker's idle-timeout notice is being handled by the manager (counts read before the worker is popped) when a submit lands: neither submit nor the manager re-spawns, the future never resolves (twin of C07b in another statement order)"),
+ "C02e": dict(property="C02", needs="a worker re-spawned by submit() after an idle exit dies abruptly: the manager was woken before the re-spawn and went back to sleep without the new sentinel (revert of the F13 repair)"),
+ "C03e": dict(property="C03", needs="the same wrap_non_picklable_objects wrapper sent with two submissions and a state change in between: its pickled bytes are memoised (same statement as C16c, seen through C03's clause)"),
+ "C05e": dict(property="C05", needs="shutdown(wait=False) with work pending, then a waited shutdown (explicit or end of a with block): the executor has forgotten its manager thread, the second call returns at once"),
+ "C07e": dict(property="C07", needs="shutdown(wait=False) with a job pending + the worker leaving on idle timeout: the executor's queue references are cleared although the manager's re-spawn builds the new worker from them; the worker dies on None.get, pool broken"),
+ "C10e": dict(property="C10", needs="thread A asks another max_workers while thread B asks other executor arguments: _resize now runs after the executor lock was released, A resizes (and returns) the instance B has just shut down"),
+ "C20e": dict(property="C20", needs="a worker killed by a real-time signal (no signal.Signals member): the exit-code name lookup became a dict access under except ValueError, the manager dies composing the diagnostic and the lifecycle leaks workers, feeder thread, fds, semaphores"),
  "C20b": dict(property="C20", needs="kill-type lifecycle + worker with descendants one of which vanishes during the kill: kill_process_tree returns early, the worker is neither killed nor joined (child, fd, semaphore accumulate)"),
 }
 DETECTED = json.load(open(os.path.join(ROOT, "seeded", "detected.json"))) if os.path.exists(os.path.join(ROOT, "seeded", "detected.json")) else {}
